@@ -569,6 +569,32 @@ class MinimizeUnit(Unit):
         pb = PBStub(c)
         state = {"fw": None, "opts": None, "results": []}
 
+        class SymList:
+            """the lists returned by _get_constraints: any number of entries"""
+            _vcx_symbolic = True
+
+            def __init__(self, nm):
+                self.n = SI(z3.Int(c.fresh_name("n_" + nm)))
+                c.assume(self.n.t >= 0)
+
+            def _vcx_len(self):
+                return self.n
+
+            def __len__(self):
+                raise Unsupported("len() of a symbolic list reached a builtin")
+
+        class UserFunctions:
+            """the wrappers of the user's objective / constraint functions: minimize itself must never call them - every evaluation goes
+            through Problem.__call__ (counted, recorded, barrier-clipped)"""
+
+            def __init__(self, what):
+                self.what = what
+
+            def __call__(self, *a, **k):
+                c.oblige("C06.minimize.user_functions_called_only_through_the_problem", z3.BoolVal(False), props=["C06", "C05"],
+                         note=f"minimize calls the {self.what} directly: an evaluation that is neither counted nor recorded")
+                return Vec("direct_call"), Vec("direct_call")
+
         def validation(name, excs):
             def f(*a, **k):
                 i = c.choose(name, len(excs) + 1, ["ok"] + [e.__name__ for e in excs])
@@ -664,10 +690,11 @@ class MinimizeUnit(Unit):
             state["results"].append(status)
             return ("result", status)
         m.__dict__.update({
-            "ObjectiveFunction": lambda *a: None, "BoundConstraints": lambda b: None,
+            "BoundConstraints": lambda b: None,
             "_get_bounds": validation("_get_bounds", [ValueError, TypeError]),
-            "_get_constraints": lambda cs: (validation("_get_constraints", [ValueError, TypeError])(), ([], []))[1],
-            "LinearConstraints": lambda *a: None, "NonlinearConstraints": lambda *a: None,
+            "_get_constraints": lambda cs: (validation("_get_constraints", [ValueError, TypeError])(), (SymList("linear"), SymList("nonlinear")))[1],
+            "LinearConstraints": lambda *a: UserFunctions("linear constraints"), "NonlinearConstraints": lambda *a: UserFunctions("nonlinear constraints"),
+            "ObjectiveFunction": lambda *a: UserFunctions("objective"),
             "Problem": mk_problem, "_set_default_options": set_opts, "_set_default_constants": set_consts,
             "TrustRegion": TR, "_eval": ev, "_build_result": build,
         })
@@ -801,6 +828,7 @@ class SamplingLoop(LoopSpec):
         pb = env["pb"]
         k = z3.Int(c.fresh_name("k"))
         L.st["k"] = k
+        c.ghost["sampling_k"] = k          # number of interpolation points whose stopping tests have been completed
         pb.nev = z3.Int(c.fresh_name("nev"))
         pb.events.clear()
         pb.trigger = None
@@ -929,6 +957,10 @@ class ModelsInitUnit(Unit):
             return
         if isinstance(res, MaxEvalError):
             c.oblige("C07.models_init.maxeval_means_budget_exhausted", z3.And(pb.nev == maxfev, maxfev < npt), props=P)
+            if "sampling_k" in c.ghost:
+                c.oblige("C09.models_init.maxeval_only_after_every_evaluated_point_was_tested", pb.nev == c.ghost["sampling_k"], props=P,
+                         note="the budget test fires before the stopping tests of the last evaluated point: a request met by that "
+                              "evaluation (target, feasibility) is reported as status 5")
             return
         if isinstance(res, np.linalg.LinAlgError):
             c.oblige("C07.models_init.linalg_after_full_sampling", pb.nev == npt, props=P)
